@@ -221,7 +221,11 @@ def db_scenarios(kind):
     # object any of them wrote must be invalidated in every connection
     for h, ids in (([('x',), ('y',)], (1, 0)), ([('x',), ('y',)], (0, 1)),
                    ([('x',), ('y',), ('x',)], (0, 1)),
-                   ([('x', 'y'), ('y',)], (1, 0))):
+                   ([('x', 'y'), ('y',)], (1, 0)),
+                   # the undoing transaction holds several records for x
+                   ([('x',), ('x',)], (0, 1)),
+                   ([('x', 'y'), ('x',)], (0, 1)),
+                   ([('x',), ('x',), ('x',)], (0, 1, 2))):
         for cache in (True, False):
             wit = dict(kind=kind, history=h, undo_multiple=list(ids),
                        cached=cache)
@@ -294,6 +298,28 @@ def db_scenarios(kind):
                 if got != final:
                     bad('visible', 'undoer-after-undomultiple', wit,
                         dict(got=got, want=final))
+                if not refused:
+                    # an undo is an ordinary transaction: it can itself be
+                    # undone (also when it holds two records for an object),
+                    # restoring the undone state
+                    env.CLOCK.now += 1
+                    try:
+                        w.db.undo(w.db.undoInfo(0, 1)[0]['id'], tm1.get())
+                        tm1.commit()
+                        outcome2 = 'ok'
+                    except UE:
+                        tm1.abort()
+                        outcome2 = 'refused'
+                    res['cov']['evaluations'] += 1
+                    if outcome2 != 'ok':
+                        bad('visible', 'undo-of-undomultiple-refused', wit,
+                            {})
+                    else:
+                        tm2.abort()
+                        got = {n: c2.root()[n].v for n in w.names}
+                        if got != vals[-1]:
+                            bad('visible', 'after-undo-of-undomultiple', wit,
+                                dict(got=got, want=vals[-1]))
             except Exception as e:      # noqa: B902
                 bad('error', 'db:%s' % type(e).__name__, wit,
                     dict(error=repr(e)[:300]))
